@@ -76,6 +76,13 @@ fn run_ops<B: Strs>(data: &[u8], ops: &[&str]) -> String {
             "sl" => B::read_string(&mut b, Dec::Utf8Len, until).map(|s| show_str(&s)),
             "s16l" => B::read_string(&mut b, Dec::Utf16Le, until).map(|s| show_str(&s)),
             "s16b" => B::read_string(&mut b, Dec::Utf16Be, until).map(|s| show_str(&s)),
+            // the fourth StringDecoder of the crate (protocols/unreal2); it has no delimiter
+            "su2" => {
+                if until.is_some() {
+                    return "bad-case".into();
+                }
+                B::read_string(&mut b, Dec::Unreal2, None).map(|s| show_str(&s))
+            }
             "vi" => {
                 match B::varint(&mut b) {
                     Some(r) => r.map(|v| v.to_string()),
